@@ -6,33 +6,64 @@ Import ListNotations.
 Open Scope R_scope.
 
 (* ------------------------------------------------------------------ gcirc *)
+(* Two source shapes are supported by the same scripts: radians first, then differences (original), and differences in
+   the caller's unit first, then radians (repaired).  align_sin proves the arguments of corresponding sines equal. *)
 
-Lemma gcirc_sindis2_is_hav : forall a1 d1 a2 d2, gcirc_sindis2 a1 d1 a2 d2 = hav d1 a1 d2 a2.
-Proof. intros. unfold gcirc_sindis2, hav. ring. Qed.
-
-Lemma gcirc_sindis2_is_chord : forall a1 d1 a2 d2,
-  gcirc_sindis2 a1 d1 a2 d2 = (1 - dot (vec d1 a1) (vec d2 a2)) / 2.
-Proof. intros. rewrite gcirc_sindis2_is_hav. apply hav_is_chord. Qed.
-
-Lemma gcirc_dis_is_rad : forall a1 d1 a2 d2, gcirc_dis a1 d1 a2 d2 = gcirc_rad a1 d1 a2 d2.
-Proof.
-  intros. unfold gcirc_rad. rewrite <- gcirc_sindis2_is_hav. reflexivity.
-Qed.
+Ltac align_sin :=
+  repeat match goal with
+  | |- ?L = ?R =>
+    match L with context [sin ?a] =>
+      match R with context [sin ?b] =>
+        tryif constr_eq a b then fail else
+        (let H := fresh in assert (H : a = b) by (unfold deg; field); rewrite H; clear H)
+      end
+    end
+  end.
 
 Lemma gcirc_valid_units_doc : gcirc_valid_units = [0%Z; 1%Z; 2%Z].
 Proof. reflexivity. Qed.
 
+Lemma gcirc_h_is_hav : forall units ra1 dec1 ra2 dec2, In units gcirc_valid_units ->
+  gcirc_h units ra1 dec1 ra2 dec2 = hav_S units ra1 dec1 ra2 dec2.
+Proof.
+  intros units ra1 dec1 ra2 dec2 H. rewrite gcirc_valid_units_doc in H.
+  destruct H as [<-|[<-|[<-|[]]]]; unfold gcirc_h, gcirc_in, gcirc_sindis2, hav_S, hav, deg; cbn [Z.eqb Pos.eqb];
+    cbv zeta; align_sin; ring.
+Qed.
+
+Lemma gcirc_gen_eq : forall units ra1 dec1 ra2 dec2,
+  gcirc_gen units ra1 dec1 ra2 dec2 = gcirc_out units (2 * asin (sqrt (gcirc_h units ra1 dec1 ra2 dec2))).
+Proof.
+  intros. unfold gcirc_gen, gcirc_h. destruct (gcirc_in units ra1 dec1 ra2 dec2) as [[[p1 p2] p3] p4]. reflexivity.
+Qed.
+
+Lemma hav_S_is_chord : forall units ra1 dec1 ra2 dec2, In units gcirc_valid_units ->
+  hav_S units ra1 dec1 ra2 dec2 = (1 - dot (pt_S units ra1 dec1) (pt_S units ra2 dec2)) / 2.
+Proof.
+  intros units ra1 dec1 ra2 dec2 H. rewrite gcirc_valid_units_doc in H.
+  destruct H as [<-|[<-|[<-|[]]]]; unfold hav_S, pt_S; apply hav_is_chord.
+Qed.
+
+Lemma gcirc_h_is_chord : forall units ra1 dec1 ra2 dec2, In units gcirc_valid_units ->
+  gcirc_h units ra1 dec1 ra2 dec2 = (1 - dot (pt_S units ra1 dec1) (pt_S units ra2 dec2)) / 2.
+Proof. intros. rewrite gcirc_h_is_hav by assumption. apply hav_S_is_chord. assumption. Qed.
+
+(* the asin argument is legal for every real input: no NaN in exact arithmetic *)
+Lemma gcirc_h_range : forall units ra1 dec1 ra2 dec2, In units gcirc_valid_units ->
+  0 <= gcirc_h units ra1 dec1 ra2 dec2 <= 1.
+Proof.
+  intros units ra1 dec1 ra2 dec2 H. rewrite gcirc_h_is_hav by assumption. rewrite gcirc_valid_units_doc in H.
+  destruct H as [<-|[<-|[<-|[]]]]; unfold hav_S; apply hav_range.
+Qed.
+
 Lemma gcirc_gen_is_S : forall units ra1 dec1 ra2 dec2, In units gcirc_valid_units ->
   gcirc_gen units ra1 dec1 ra2 dec2 = gcirc_S units ra1 dec1 ra2 dec2.
 Proof.
-  intros units ra1 dec1 ra2 dec2 H. rewrite gcirc_valid_units_doc in H.
-  destruct H as [<-|[<-|[<-|[]]]]; unfold gcirc_gen, gcirc_in, gcirc_out; cbn [Z.eqb Pos.eqb];
-    rewrite gcirc_dis_is_rad; unfold gcirc_S, arcsec_of_rad, deg; reflexivity.
+  intros units ra1 dec1 ra2 dec2 H. rewrite gcirc_gen_eq, gcirc_h_is_hav by assumption.
+  rewrite gcirc_valid_units_doc in H.
+  destruct H as [<-|[<-|[<-|[]]]]; unfold gcirc_out, hav_S, gcirc_S, gcirc_rad, arcsec_of_rad; cbn [Z.eqb Pos.eqb];
+    reflexivity.
 Qed.
-
-(* the asin argument is legal for every real input: no NaN in exact arithmetic *)
-Lemma gcirc_sindis2_range : forall a1 d1 a2 d2, 0 <= gcirc_sindis2 a1 d1 a2 d2 <= 1.
-Proof. intros. rewrite gcirc_sindis2_is_hav. apply hav_range. Qed.
 
 Lemma gcirc_gen_sym : forall units ra1 dec1 ra2 dec2, In units gcirc_valid_units ->
   gcirc_gen units ra1 dec1 ra2 dec2 = gcirc_gen units ra2 dec2 ra1 dec1.
